@@ -221,6 +221,7 @@ package rosmar
 //@   use mutator err=err
 //@   ensures [C01,C14:incr.stored] err == nil ==> r2.present && !isnull(r2.value) && r2.isJSON == 1 && r2.tombstone == 0 && r2.exp == absexp(exp, now) && r2.cas == newCas
 //@   ensures [C03:incr.default]    err == nil && !hasBody(r) ==> result == deflt
+//@   ensures [C01,C03:incr.stores-what-it-returns] err == nil ==> r2.value == bytesof(sprintfd("%d", result))
 //@   ensures [C07:incr.xattrs]     err == nil ==> r2.xattrs == (if hasBody(r) then r.xattrs else NULL)
 //@
 //@ spec wcInsert(opt, cas) = !bit(opt, 16) && (bit(opt, 2) || cas == 0)
